@@ -35,3 +35,4 @@ def check(ctx):
     drivers.phase_shortcut(ctx)
     observables.sv_density_matrix_energy(ctx)
     drivers.sv_current_hamiltonian(ctx)
+    drivers.sv_solver_table(ctx)
